@@ -4,6 +4,7 @@ _UNIT_MODULES = [
     "units.u_overlap.unit",
     "units.u_bigint.unit",
     "units.u_constrain.unit",
+    "units.u_resolver.unit",
 ]
 
 UNITS = {}
